@@ -214,27 +214,32 @@ impl Drop for Shared {
     }
 }
 
-/// Classify an abnormal child end for signatures.
+/// Classify an abnormal child end for signatures (same class natively and
+/// under ASan, which reports a stack overflow itself and exits with a code).
 pub fn crash_class(run: &ChildRun) -> String {
+    let err = &run.stderr;
+    let asan_kind = || {
+        err.find("ERROR: AddressSanitizer: ").map(|at| {
+            let rest = &err[at + 25..];
+            rest.split(|c: char| !(c.is_ascii_alphanumeric() || c == '-' || c == '_')).next().unwrap_or("").to_string()
+        })
+    };
     match &run.end {
         ChildEnd::Completed => "completed".to_string(),
         ChildEnd::Timeout => "timeout".to_string(),
-        ChildEnd::Exit(c) => {
-            if run.stderr.contains("AddressSanitizer") {
-                "sanitizer".to_string()
-            } else {
-                format!("exit:{}", c)
-            }
-        }
-        ChildEnd::Signal(s) => {
-            if run.stderr.contains("overflowed its stack") || run.stderr.contains("stack-overflow") {
+        ChildEnd::Exit(_) | ChildEnd::Signal(_) => {
+            if err.contains("overflowed its stack") || err.contains("AddressSanitizer: stack-overflow") {
                 "stack_overflow".to_string()
-            } else if run.stderr.contains("memory allocation of") {
+            } else if err.contains("memory allocation of") {
                 "abort:alloc".to_string()
-            } else if run.stderr.contains("AddressSanitizer") {
-                "sanitizer".to_string()
+            } else if let Some(k) = asan_kind() {
+                format!("sanitizer:{}", k)
             } else {
-                format!("signal:{}", s)
+                match &run.end {
+                    ChildEnd::Exit(c) => format!("exit:{}", c),
+                    ChildEnd::Signal(s) => format!("signal:{}", s),
+                    _ => unreachable!(),
+                }
             }
         }
     }
